@@ -165,13 +165,13 @@ _PLUMB = (" Also, on the modules of this property: SUB-1 (where listed) per-subs
 _EQ2 = " EQ-2 a marker object (STATE_NOTSET, STATE_CLEARED) is told apart by identity, never by == (which would run the __eq__ of the user value in the slot)."
 _ADDED = {
     "C01": " MX-9 an operator that tells mux events apart and sends them on builds a MuxObservable (a plain Observable of event tuples would send its successor down its plain arm); MS-6 the store layers forward state, key and value unchanged; TP-1 (state ids); FW-1 for group_by." + _EQ2 + _PLUMB,
-    "C02": _EQ2 + " ST-5 also: the reset of tee_map's join slots covers every end of a lifetime (at creation, or at both completion and error), and every store into the join tables addresses the handled key's own slots. MS-6 (forwarders); GEN-1 no generator-built handler; TP-1 the state topology gives every declaration a new state id (create_mapper included); MX-6 one topology is probed by every subscriber of a merged source.",
+    "C02": _EQ2 + " ST-5 also: tee_map's join slots are reset when the key is created, on every path that sends the creation on (the moment that covers a lifetime ended by an error), never while a mux error passes (one failing item of a key that goes on), and every store into the join tables addresses the handled key's own slots. MS-6 (forwarders); GEN-1 no generator-built handler; TP-1 the state topology gives every declaration a new state id (create_mapper included); MX-6 one topology is probed by every subscriber of a merged source.",
     "C03": _EQ2 + " DP-4 split records a segment before anything is sent into its pipeline; MS-6 (forwarders); TP-1 (state ids are never shared between declarations); SUB-3 (see C01) on every module.",
     "C04": " MX-5 the sandwich of group_by; FWD-1 the public group_by hands key_mapper and pipeline unchanged to the implementation; TP-1 two group_by in one pipeline get two mapper states." + _PLUMB,
     "C05": " FW-1 also for group_by (the property holds under group_by: the parent's own map is consulted for every item). MX-5 the sandwich of roll; FWD-1 the public roll hands window and stride unchanged to the implementation." + _PLUMB,
     "C06": " FW-1 also for group_by (split under group_by: the parent's own map is consulted for every item). MX-5 the sandwich of split (head, the user pipeline, demux on the head's own Subject); FWD-1 the public split hands predicate and pipeline unchanged to the implementation; MX-6 one shared topology when several multiplexed sources are merged." + _PLUMB,
     "C07": " FW-1 also for group_by (time_split under group_by). DUR-1 durations are ordered as timedelta values (or total_seconds()), never through .seconds / .microseconds / .days alone; MX-5 the sandwich of time_split; FWD-1 the public time_split hands both timeouts, the time mapper, closing_mapper and include_closing_item unchanged to the implementation (no clamping or defaulting)." + _PLUMB,
-    "C08": " ST-5 also: the reset of tee_map's join slots covers every end of a lifetime (at creation, or at both completion and error), and every store into the join tables addresses the handled key's own slots. PR-1 on tee_map and the mux layer: connect and delivery happen synchronously, never through a scheduler. TM-4 also: the zip join releases the key's flags and slots before the tuple goes out; TM-6 who may connect: connect() is called only by tee_map's join, the mux connectable proxy and train_test_split -- never by an operator on a source it was handed; MX-5 also: the shared outer subject of a grouping head is completed / errored exactly when its source is, on every path; TM-3 every application of tee_map publishes its own connectable from its source, also when the source is itself a connectable proxy." + _PLUMB,
+    "C08": " ST-5 also: tee_map's join slots are reset when the key is created, on every path that sends the creation on (the moment that covers a lifetime ended by an error), never while a mux error passes (one failing item of a key that goes on), and every store into the join tables addresses the handled key's own slots. PR-1 on tee_map and the mux layer: connect and delivery happen synchronously, never through a scheduler. TM-4 also: the zip join releases the key's flags and slots before the tuple goes out; TM-6 who may connect: connect() is called only by tee_map's join, the mux connectable proxy and train_test_split -- never by an operator on a source it was handed; MX-5 also: the shared outer subject of a grouping head is completed / errored exactly when its source is, on every path; TM-3 every application of tee_map publishes its own connectable from its source, also when the source is itself a connectable proxy." + _PLUMB,
     "C09": _EQ2 + " MX-6 the root multiplexer frames a failing source as an error, not as a completion; AG-3b a marker tested in the plain scan's accumulator variable is the value that variable starts with." + _PLUMB,
     "C10": _EQ2 + " FW-2 also: pad_start / pad_end refuse negative sizes only (0 is the identity); AG-8 the plain arms are the implementations confirmed on the pinned tree." + _PLUMB,
     "C11": " PR-4 from_iterable emits each element before it pulls the next (no look-ahead); AG-1 / AG-2 on flat_map (the plain arm is the repository's synchronous twin, given the same arguments); OPT-1 / DUR-1 for time_split (a zero timeout is a timeout; durations compared as durations); TM-1..4 for tee_map: the join completes with its last branch, not with the source." + _PLUMB,
